@@ -35,6 +35,12 @@ def isOk {α : Type} : R α → Bool
   | .ok _ => true
   | .error _ => false
 
+/-- the run raises exactly this error -/
+def failsWith {α : Type} (r : R α) (e : Err) : Bool :=
+  match r with
+  | .ok _ => false
+  | .error e' => e' == e
+
 def valIs (a b : Val) : Bool := Val.beq a b
 
 /-! ## a pipeline is the left-to-right fold of its stages -/
@@ -288,21 +294,44 @@ example : (match Pipe.keyed (.str "$k") sample with
      | .ok kds => kds.all (fun p => valIs p.1 (.int 0)) && kds.length == 4
      | .error _ => false) = true := by decide +kernel
 
+/-- **group_validates_first.** The accumulators of a `$group` are checked BEFORE any document —
+    or `_id` — is read (`Pipe.validateAccs`: every operator of every output field must be an
+    implemented accumulator): a bad name is THE error of the stage whatever the documents, none
+    included, and whatever else is wrong with the stage; a stage that answers passed the check. -/
+theorem group_validates_first (options : Fields) (docs : List Val) :
+    (∀ e, Pipe.validateAccs options = .error e → Pipe.groupStage (.doc options) docs = .error e) ∧
+    (∀ out, Pipe.groupStage (.doc options) docs = .ok out → Pipe.validateAccs options = .ok ()) :=
+  ⟨fun e h => Pipe.Proofs.groupStage_invalid options docs e h,
+   fun out h => (Pipe.Proofs.groupStage_ok options docs out h).1⟩
+
+/-- an unknown accumulator is refused over no input too, and before a bad `_id` expression -/
+example : Pipe.validateAccs [("_id", .null), ("x", .doc [("$foo", .str "$a")])] = .error .notImpl ∧
+    Pipe.validateAccs [("x", .doc [("$stdDevPop", .str "$a")])] = .error .notImpl ∧
+    Pipe.validateAccs [("_id", .doc [("$bogus", .int 1)]), ("x", .int 5)] = .error .attrErr ∧
+    Pipe.validateAccs [("_id", .str "$k"), ("n", .doc [("$sum", .int 1)])] = .ok () := by
+  decide +kernel
+
 /-- **group_null_id / group_empty_input.** `_id: null` puts every document in ONE group, in input
     order; and over no input `$group` answers no group at all — whatever the `_id` expression,
-    a constant included. -/
+    a constant included (the accumulators being checked all the same). -/
 theorem group_null_id (options : Fields) (docs : List Val)
-    (hid : dget "_id" options = some .null) :
+    (hid : dget "_id" options = some .null) (hv : Pipe.validateAccs options = .ok ()) :
     Pipe.groupStage (.doc options) docs =
       Pipe.emitGroups options (if docs.isEmpty then [] else [(.null, docs)]) :=
-  Pipe.Proofs.groupStage_null_id options docs hid
+  Pipe.Proofs.groupStage_null_id options docs hid hv
 
 theorem group_empty_input (options : Fields) (idExpr : Val)
-    (hid : dget "_id" options = some idExpr) : Pipe.groupStage (.doc options) [] = .ok [] :=
+    (hid : dget "_id" options = some idExpr) :
+    Pipe.groupStage (.doc options) [] =
+      (match Pipe.validateAccs options with
+       | .error e => .error e
+       | .ok _ => .ok []) :=
   Pipe.Proofs.groupStage_empty options idExpr hid
 
 example : dget "_id" [("_id", Val.null), ("n", .doc [("$sum", .int 1)])] = some .null ∧
-    dget "_id" [("_id", Val.int 0), ("n", .doc [("$sum", .int 1)])] = some (.int 0) := ⟨rfl, rfl⟩
+    dget "_id" [("_id", Val.int 0), ("n", .doc [("$sum", .int 1)])] = some (.int 0) ∧
+    Pipe.validateAccs [("_id", Val.null), ("n", .doc [("$sum", .int 1)])] = .ok () :=
+  ⟨rfl, rfl, by decide +kernel⟩
 
 /-- on such keys Python's `==` is MongoDB's key equality (the tie of the BSON order) -/
 theorem group_key_equality (a b : Val) (ha : groupKeyOk a = true) (hb : groupKeyOk b = true) :
@@ -396,6 +425,16 @@ example : isOk (Pipe.bucketStage (.doc [("groupBy", .str "$a"),
     ("boundaries", .arr [.int 0, .int 5, .int 10]), ("default", .str "other")]) [d0, d1, d2]) = true := by
   decide +kernel
 
+/-- `$bucket` checks the accumulators of its `output` before it classifies any document: an
+    unknown one is refused over no input too (and comes after the option / boundaries checks) -/
+example : failsWith (Pipe.bucketStage (.doc [("groupBy", .str "$a"),
+      ("boundaries", .arr [.int 0, .int 5]),
+      ("output", .doc [("x", .doc [("$foo", .str "$a")])])]) []) .notImpl = true ∧
+    failsWith (Pipe.bucketStage (.doc [("groupBy", .str "$a"), ("boundaries", .arr [.int 5, .int 0]),
+      ("output", .doc [("x", .doc [("$foo", .str "$a")])])]) []) .opFail = true ∧
+    failsWith (Pipe.groupStage (.doc [("_id", .doc [("$bogus", .int 1)]),
+      ("x", .doc [("$stdDevPop", .str "$a")])]) sample) .notImpl = true := by decide +kernel
+
 /-- **bucket_classification.** The bucket of a document whose `groupBy` value is a number `x`:
     the largest boundary `≤ x` when `x` lies in `[first, last)`, the default bucket otherwise
     (no default: OperationFailure). -/
@@ -474,22 +513,34 @@ example : splitDots "l" = ["l"] := by decide +kernel
 /-- **lookup_spec.** One output per input, in order; output `i` is input `i` with the `as` field
     set to the array of the foreign documents `find({foreignField: q})` selects — a sub-list of
     the foreign collection, in its order, exactly those the matcher accepts for the local value
-    `q` (null when missing, `$in` for a list); no other field changes. -/
+    `q` (null when missing, `$in` for a list), handed over in stored form (`patch` of each:
+    nothing changes on documents that are stored ones, `lookup_fetches_stored_form`); no other
+    field changes. -/
 theorem lookup_spec (db : Pipe.Db) (o : Fields) (docs out : List Val)
     (h : Pipe.lookupStage db (.doc o) docs = .ok out) :
     ∃ fr lf ff as, Pipe.lookupArg o "from" = .ok fr ∧ Pipe.lookupArg o "localField" = .ok lf ∧
       Pipe.lookupArg o "foreignField" = .ok ff ∧ Pipe.lookupArg o "as" = .ok as ∧
       List.Forall₂ (fun d r =>
-        ∃ fs q ms, d = .doc fs ∧ Pipe.lookupQuery fs lf = .ok q ∧
-          r = .doc (dset as (.arr ms) fs) ∧ ms.Sublist (db.get fr) ∧
+        ∃ (fs : Fields) (q : Val) (ms : List Val), d = .doc fs ∧ Pipe.lookupQuery fs lf = .ok q ∧
+          r = .doc (dset as (.arr (ms.map patch)) fs) ∧ ms.Sublist (db.get fr) ∧
           (∀ x, x ∈ ms ↔ x ∈ db.get fr ∧ filterApplies (patch (.doc [(ff, q)])) x = .ok true) ∧
-          (∀ k, k ≠ as → dget k (dset as (.arr ms) fs) = dget k fs)) docs out := by
+          (∀ k, k ≠ as → dget k (dset as (.arr (ms.map patch)) fs) = dget k fs)) docs out := by
   obtain ⟨fr, lf, ff, as, h1, h2, h3, h4, h5⟩ := Pipe.Proofs.lookupStage_ok db o docs out h
   refine ⟨fr, lf, ff, as, h1, h2, h3, h4, ?_⟩
   refine h5.imp ?_
   intro d r hdr
   obtain ⟨fs, q, ms, e1, e2, _, e4, e5, e6, _⟩ := Pipe.Proofs.lookupDoc_ok _ lf ff as d r hdr
-  exact ⟨fs, q, ms, e1, e2, e4, e5, e6, fun k hk => Pipe.Proofs.dget_dset_other as k _ hk fs⟩
+  exact ⟨fs, q, ms, e1, e2, by rw [← MongoModel.Proofs.C18.patchList_eq_map]; exact e4, e5, e6,
+    fun k hk => Pipe.Proofs.dget_dset_other as k _ hk fs⟩
+
+/-- the fetched documents are handed over as stored: on a foreign collection that holds stored
+    documents (datetimes naive, whole milliseconds) the normalisation is the identity -/
+theorem lookup_fetches_stored_form (ms : List Val) (h : ∀ x ∈ ms, normalV x = true) :
+    ms.map patch = ms := by
+  conv => rhs; rw [← List.map_id ms]
+  exact List.map_congr_left (fun x hx => by simpa using Pipe.Proofs.normalV_patch x (h x hx))
+
+example : ∀ x ∈ other, normalV x = true := by decide +kernel
 
 example : isOk (Pipe.lookupStage db (.doc [("from", .str "other"), ("localField", .str "k"),
     ("foreignField", .str "fk"), ("as", .str "j")]) sample) = true := by decide +kernel
@@ -916,8 +967,10 @@ def addSpec : Val := .doc [("r", .doc [("$add", .arr [.str "$a", .int 1])]), ("a
     `i` is input `i` with each name set, in order, to the value the oracle gives its expression
     ON THE INPUT DOCUMENT — an entry never sees what another entry of the same stage wrote, also
     after a dotted name was written into a sub-document — and left alone when that value is
-    missing.  A dotted name creates the sub-documents it goes through (`Spec.Pipe.setNested`);
-    the oracle is silent where an array stands on its way.  (`_partial`: the C04 domain.) -/
+    missing.  A dotted name creates the sub-documents it goes through, puts one in the place of a
+    scalar, and THROUGH AN ARRAY writes into every item of it (`Spec.Pipe.setDeepIn`: an item
+    that is no document becomes one, an array inside the array is gone through).
+    (`_partial`: the C04 domain.) -/
 theorem addFields_eq_spec_partial (opts : Val) (docs s : List Val)
     (hD : addFieldsReasons opts docs = []) (hs : specAddFieldsStage opts docs = some s) :
     Pipe.addFieldsStage opts docs = .ok s :=
@@ -937,21 +990,45 @@ example : addFieldsReasons (.doc [("d.n", .int 5), ("r", .str "$d.n"), ("n.m", .
     [.doc [("_id", .int 0), ("d", .doc [("n", .int 5)]), ("a", .doc [("z", .int 1)]), ("r", .int 1),
       ("n", .doc [("m", .int 0)])]] = true := by decide +kernel
 
+/-- a dotted name through an array writes into every item (the former deviation: the array was
+    replaced by a document): `q.z` over `q: [{n: 1}, 5, [{n: 2}]]`, and `l.z` over an empty array -/
+example : addFieldsReasons (.doc [("q.z", .int 7), ("l.z", .int 1)])
+      [.doc [("_id", .int 0), ("q", .arr [.doc [("n", .int 1)], .int 5, .arr [.doc [("n", .int 2)]]]),
+        ("l", .arr [])]] = [] ∧
+    optDocsAre (specAddFieldsStage (.doc [("q.z", .int 7), ("l.z", .int 1)])
+      [.doc [("_id", .int 0), ("q", .arr [.doc [("n", .int 1)], .int 5, .arr [.doc [("n", .int 2)]]]),
+        ("l", .arr [])]])
+    [.doc [("_id", .int 0), ("q", .arr [.doc [("n", .int 1), ("z", .int 7)], .doc [("z", .int 7)],
+        .arr [.doc [("n", .int 2), ("z", .int 7)]]]), ("l", .arr [])]] = true := by decide +kernel
+
 /-- every entry reads the input document: running the entries of a stage one after the other as
     separate stages is in general something else — the oracle's fold never looks at `acc` to
     evaluate an expression -/
-theorem addFields_reads_input (d : Val) (name : String) (e : Val) (rest acc : Fields) :
+theorem addFields_reads_input (d : Val) (name : String) (e : Val) (rest acc : Fields) (k : String)
+    (ks : List String) (hn : splitDots name = k :: ks) :
     specSetFields d ((name, e) :: rest) acc =
       (match exprValue e d with
-       | some (some v) =>
-         if arrayOnPath (splitDots name) acc then none
-         else specSetFields d rest (setNested (splitDots name) v acc)
+       | some (some v) => specSetFields d rest (setDeepIn acc k ks v)
        | some none => specSetFields d rest acc
        | none => none) := by
-  simp only [specSetFields]
+  simp only [specSetFields, hn]
   cases exprValue e d with
   | none => rfl
   | some r => cases r <;> rfl
+
+example : splitDots "q.z" = ["q", "z"] := by decide +kernel
+
+/-- **addFields_deep_write.** What the oracle writes for a dotted name: below a document the
+    named field (others untouched, in place), in every item of an array, and a fresh chain of
+    documents in the place of anything else. -/
+theorem addFields_deep_write (k : String) (ks : List String) (v : Val) :
+    (∀ xs, setDeep (.arr xs) (k :: ks) v = .arr (xs.map (fun x => setDeep x (k :: ks) v))) ∧
+    (∀ fs, setDeep (.doc fs) (k :: ks) v = .doc (setDeepIn fs k ks v)) ∧
+    setDeep (.int 3) (k :: ks) v = nestDoc (k :: ks) v ∧ setDeep .null (k :: ks) v = nestDoc (k :: ks) v ∧
+    (∀ fs k', k' ≠ k → dget k' (setDeepIn fs k ks v) = dget k' fs) :=
+  ⟨fun xs => by rw [setDeep, Pipe.Proofs.setDeepItems_eq_map],
+   fun fs => by rw [setDeep], by simp [setDeep], by simp [setDeep],
+   fun fs k' h => Pipe.Proofs.dget_setDeepIn_other k k' ks v h fs⟩
 
 /-- **replaceRoot_eq_spec (partial).** `{$replaceRoot: {newRoot: e}}` with `e` in the C04 domain
     answers, for each document, the document `e` evaluates to (the oracle is silent when `e` is
